@@ -504,6 +504,40 @@ fn misc(ctx: &mut Ctx) {
     }
 }
 
+fn slice_seq_and_fair_chunks(ctx: &mut Ctx) {
+    use sux::dict::SliceSeq;
+    use sux::utils::FairChunks;
+    for len in [0usize, 1, 5] {
+        let v: Vec<usize> = (0..len).map(|i| i * 3).collect();
+        for i in ood(len) {
+            probe(ctx, "SliceSeq::get", || format!("len={len} index={i}"), || SliceSeq::new(v.clone()).get(i));
+            probe(ctx, "SliceSeq::into_iter_from", || format!("len={len} from={i}"), || (&SliceSeq::new(v.clone())).into_iter_from(i).count());
+        }
+    }
+    // FairChunks over cumulative weight functions stored in an Elias-Fano list
+    let cwfs: Vec<Vec<usize>> = vec![vec![], vec![0], vec![0, 0], vec![0, 5], vec![0, 1, 1, 1, 7, 7, 30], (0..50).map(|i| i * i).collect()];
+    for cwf in cwfs {
+        let max = cwf.last().copied().unwrap_or(0);
+        for target in [0usize, 1, 2, max.saturating_sub(1), max, max + 1, usize::MAX / 2, usize::MAX] {
+            probe(ctx, "FairChunks::new+iterate", || format!("cwf={:?} target_weight={target}", &cwf[..cwf.len().min(8)]), || {
+                let mut b = EliasFanoBuilder::new(cwf.len(), max);
+                for &x in &cwf {
+                    b.push(x);
+                }
+                let ef = b.build_with_seq_and_dict();
+                let chunks: Vec<_> = FairChunks::new(target, &ef).take(200).collect();
+                // the chunks tile 0..num_weights in order
+                let mut pos = 0;
+                for c in &chunks {
+                    assert!(c.start == pos && c.end >= c.start && c.end <= cwf.len().saturating_sub(1), "chunks {chunks:?} do not tile 0..{}", cwf.len().saturating_sub(1));
+                    pos = c.end;
+                }
+                chunks.len()
+            });
+        }
+    }
+}
+
 fn main() {
     let mut ctx = Ctx::from_args();
     start_watchdog(120);
@@ -519,5 +553,6 @@ fn main() {
     rear_coded(&mut ctx);
     functions(&mut ctx);
     misc(&mut ctx);
+    slice_seq_and_fair_chunks(&mut ctx);
     ctx.finish();
 }
